@@ -1702,6 +1702,37 @@ class SymExec:
         return len(vals) == 1 and isinstance(vals[0], ast.Call) and isinstance(vals[0].func, ast.Name) and vals[0].func.id == 'object' \
             and not vals[0].args and not any(isinstance(n, ast.Global) and var in n.names for n in ast.walk(m.tree))
 
+    def _sentinel_contained(self, q: str) -> bool:
+        """The sentinel is used only as an operand of `is` / `is not` and as the value assigned to a plain local name, in its own
+        module only: it is never stored in a container or an attribute, passed to a call or returned."""
+        cache = self.facts.__dict__.setdefault('_sentinel_contained', {})
+        if q in cache:
+            return cache[q]
+        mod, _, var = q.rpartition('.')
+        ok = True
+        for m in self.facts.modules.values():
+            if m.name != mod and any(t == q for t in m.imports.values()):
+                ok = False
+        m = self.facts.modules.get(mod)
+        if m is None:
+            ok = False
+        else:
+            allowed = set()
+            for n in ast.walk(m.tree):
+                if isinstance(n, ast.Compare) and all(isinstance(o, (ast.Is, ast.IsNot)) for o in n.ops):
+                    for x in [n.left] + list(n.comparators):
+                        if isinstance(x, ast.Name) and x.id == var:
+                            allowed.add(id(x))
+                if isinstance(n, ast.Assign) and isinstance(n.value, ast.Name) and n.value.id == var and all(isinstance(t, ast.Name) for t in n.targets):
+                    allowed.add(id(n.value))
+                if isinstance(n, ast.AnnAssign) and isinstance(n.value, ast.Name) and n.value.id == var and isinstance(n.target, ast.Name):
+                    allowed.add(id(n.value))
+            for n in ast.walk(m.tree):
+                if isinstance(n, ast.Name) and n.id == var and isinstance(n.ctx, ast.Load) and id(n) not in allowed:
+                    ok = False
+        cache[q] = ok
+        return ok
+
     def _import_time_const(self, q: str):
         """A module-level name assigned exactly once, never declared global, whose value - computed while the module is
         imported - is an immutable object known completely (str / number / tuple / frozenset of such): that value."""
@@ -2363,7 +2394,7 @@ class SymExec:
                     arg_ = a_[3][0]
                 if arg_ is not None and is_const(b_) and isinstance(b_[1], bool):
                     positive = (b_[1] is True) == (op in ('is', '=='))
-                    return arg_ if positive else ('not', arg_)      # as a condition: the truth value of the argument
+                    return a_ if positive else ('not', a_)          # bool(x) itself (a condition on it is a condition on x): still a boolean
         # two displays of constants
         if op in ('==', '!=') and isinstance(fl, tuple) and isinstance(fr_, tuple) and fl[:1] == fr_[:1] and fl[:1] in (('list',), ('tuple',)) \
                 and all(is_const(x) for x in fl[1:]) and all(is_const(x) for x in fr_[1:]):
@@ -2407,6 +2438,11 @@ class SymExec:
             for a_, b_ in ((fl, fr_), (fr_, fl)):
                 if isinstance(a_, tuple) and a_[:2] == ('ref', 'modvar') and len(a_) == 3 and self._is_sentinel(a_[2]) and (
                         (isinstance(b_, tuple) and b_[:1] in (('sym',), ('symlist',), ('tok',), ('const',))) or isinstance(r if a_ is fl else l, ProdVal)):
+                    return ('const', op == 'is not')
+                # ... and neither is a value read out of a container by subscript, when the sentinel never leaves local
+                # variables (it is only ever compared by identity or assigned to a plain name)
+                if isinstance(a_, tuple) and a_[:2] == ('ref', 'modvar') and len(a_) == 3 and self._is_sentinel(a_[2]) and \
+                        isinstance(b_, tuple) and b_[:1] == ('sub',) and self._sentinel_contained(a_[2]):
                     return ('const', op == 'is not')
         # identity / equality against None etc. for values that are known objects
         if op in ('is', 'is not', '==', '!=') and (is_const(fl) or is_const(fr_)):
